@@ -9,7 +9,7 @@ TRUST = ("Trusted base: the DetLoop (virtual-time asyncio loop, FIFO ready queue
          "and the independent reference model RM (dsim/refmodel.py). Bounds: <=5 simulators (6 in "
          "thorough, 9 in C06's dense graphs), group depth <=3, until <=10 (quick) / <=20 (thorough). Sampling, not enumeration: a clean batch is evidence, not proof.")
 CHECKS = {
- "C01": ("exploration", "core", "seeded search over scenarios x latency schedules; online oracle with RM arrival times: no feeder step with arr<=tau open or begun later than a consumer step at tau", "6.C01",
+ "C01": ("exploration", "core", "seeded search over scenarios x latency schedules; online oracle with RM arrival times: no feeder step with arr<=tau open or begun later than a consumer step at tau; families: random topologies, diamond / two-path / deep-tail topologies, async agents, a failing simulator, and a real-time family in which accepted external events are demands", "6.C01",
          "deterministic simulation: seeded schedule search + RM history oracle"),
  "C02": ("exploration", "core", "seeded search; executed step set of every simulator equals RM's demand set (initial, self, trigger causes), strictly increasing, inside [0,until)", "6.C02",
          "deterministic simulation: seeded schedule search + RM demand-set oracle"),
@@ -17,7 +17,7 @@ CHECKS = {
          "deterministic simulation: seeded schedule search + RM due-data oracle"),
  "C05": ("exploration", "core", "seeded search; run() must return: DetLoop detects deadlock (idle loop, unfinished run), livelock (callback cap) and any internal exception", "6.C05",
          "deterministic simulation: seeded schedule search + deadlock/livelock detection"),
- "C07": ("exploration", "core", "seeded search; every step inside (t, max_advance] must have a cause traceable to the simulator's own output/self-schedule at or after t (provenance over RM's cause records)", "6.C07",
+ "C07": ("exploration", "core", "seeded search; every step inside (t, max_advance] must have a cause traceable to the simulator's own output/self-schedule at or after t (provenance over RM's cause records); m <= until, and m == until without trigger inputs; also in real-time mode (simulators for which set_event steps may be booked are excepted from the 'equals until' clause, steps caused by external events from the provenance clause)", "6.C07",
          "deterministic simulation: seeded schedule search + provenance oracle"),
  "C10": ("exploration", "core", "seeded search with lazy_stepping=True; no producer step at main time t begins while a consumer step with main time < t is open or still to come", "6.C10",
          "deterministic simulation: seeded schedule search + ordering oracle"),
